@@ -58,7 +58,17 @@ pub struct Stats {
 	pub bg_errors: u64,
 }
 
+#[derive(Debug, Clone)]
+pub struct FailedCommit {
+	pub actor: usize,
+	pub txn: u64,
+	pub class: String,
+	pub start_seq: u64,
+	pub keys: Vec<Key>,
+}
+
 pub struct Outcome {
+	pub failed_commits: Vec<FailedCommit>,
 	pub violation: Option<Violation>,
 	pub stats: Stats,
 	pub ops: Vec<Op>,
@@ -93,6 +103,7 @@ struct Actor {
 }
 
 struct PendingCommit {
+	start_seq: u64,
 	txn_id: u64,
 	writes: Vec<Write>,
 	sync: bool,
@@ -119,7 +130,7 @@ pub struct Sh {
 	faults_active: Cell<bool>,
 	checkpoint_model: RefCell<Option<Model>>,
 	step_ix: Cell<usize>,
-	failed_commits: RefCell<Vec<(usize, u64, String)>>,
+	failed_commits: RefCell<Vec<FailedCommit>>,
 }
 
 pub const SCAN_LO: &[u8] = &[0u8];
@@ -263,6 +274,34 @@ impl Sh {
 		}
 	}
 
+	/// Like `fail`, but first asks whether the rotation-straddle finding accounts for the
+	/// whole discrepancy: only possible after a reopen / recovery in this session, and only
+	/// if every differing key holds a value reachable by dropping writes of straddled
+	/// transactions only.
+	fn fail_reads(&self, class: &str, detail: String, h: u64, got: &dyn Fn(&[u8]) -> Option<Option<Val>>, keys: &[Key]) {
+		let mut explained = None;
+		if self.stats.borrow().reopens > 0 || self.plan.steps.iter().any(|s| matches!(s, Step::RecoverSettle)) {
+			let m = self.model.borrow();
+			if m.commits.iter().any(|c| c.straddled() && c.last_seq <= h) {
+				let ok = keys.iter().all(|k| match got(k) {
+					Some(g) => m.possible(k, h, &|c| c.straddled()).contains(&g),
+					None => true,
+				});
+				if ok {
+					explained = Some("rotation_straddle".to_string());
+				}
+			}
+		}
+		let mut v = self.viol.borrow_mut();
+		if v.is_none() {
+			*v = Some(Violation {
+				class: class.to_string(),
+				detail: format!("step {}: {}{}", self.step_ix.get(), detail, if explained.is_some() { " [explained by known finding rotation_straddle]" } else { "" }),
+				explained,
+			});
+		}
+	}
+
 	fn ev(&self, s: String) {
 		self.events.borrow_mut().push(s);
 	}
@@ -321,6 +360,7 @@ impl Sh {
 							durable_sync: p.sync,
 							logged_wal: None,
 							applied_wal: None,
+							start_seq: p.start_seq,
 						};
 						self.ev(format!("seq a{} txn{} {}..{}", a, c.txn, c.first_seq, c.last_seq));
 						self.model.borrow_mut().add_commit(c);
@@ -834,7 +874,10 @@ impl Sh {
 			match txn.get(k.as_slice()) {
 				Ok(got) => {
 					if got != want {
-						self.fail(
+						let kk = k.clone();
+						let gg = got.clone();
+						drop(m);
+						self.fail_reads(
 							"read_mismatch",
 							format!(
 								"{}: get({}) at horizon {} returned {:?}, model says {:?}",
@@ -844,6 +887,9 @@ impl Sh {
 								got.as_ref().map(|v| hex(v)),
 								want.as_ref().map(|v| hex(v))
 							),
+							tm.horizon,
+							&|q| if q == kk.as_slice() { Some(gg.clone()) } else { None },
+							&[k.clone()],
 						);
 						return;
 					}
@@ -862,17 +908,28 @@ impl Sh {
 						got.reverse();
 					}
 					if got != want {
-						self.fail(
-							"scan_mismatch",
-							format!(
-								"{}: {} scan at horizon {} returned {} but model says {}",
-								who,
-								if rev { "backward" } else { "forward" },
-								tm.horizon,
-								fmt_kv(&got),
-								fmt_kv(&want)
-							),
+						let gm: BTreeMap<Key, Val> = got.iter().cloned().collect();
+						let mut ks: Vec<Key> = keys.clone();
+						for (k, _) in &got {
+							if !ks.contains(k) {
+								ks.push(k.clone());
+							}
+						}
+						let detail = format!(
+							"{}: {} scan at horizon {} returned {} but model says {}",
+							who,
+							if rev { "backward" } else { "forward" },
+							tm.horizon,
+							fmt_kv(&got),
+							fmt_kv(&want)
 						);
+						let sorted = got.windows(2).all(|w| w[0].0 < w[1].0);
+						drop(m);
+						if sorted {
+							self.fail_reads("scan_mismatch", detail, tm.horizon, &|q| Some(gm.get(q).cloned()), &ks);
+						} else {
+							self.fail("scan_mismatch", detail);
+						}
 						return;
 					}
 				}
@@ -1203,7 +1260,7 @@ impl Sh {
 		let commit_ts = ip::advance_clock(1000);
 		self.stats.borrow_mut().sim_time_ns += 1000;
 		if exp.is_none() && !tm.writes.is_empty() {
-			self.pending.borrow_mut().insert(ai, PendingCommit { txn_id: act.txn_id, writes: tm.writes.clone(), sync, commit_ts });
+			self.pending.borrow_mut().insert(ai, PendingCommit { start_seq: tm.horizon, txn_id: act.txn_id, writes: tm.writes.clone(), sync, commit_ts });
 			ip::marker(format!("invoke commit txn{}", act.txn_id));
 		}
 		self.ev(format!("commit a{} txn{} sync={}", ai, act.txn_id, sync));
@@ -1320,7 +1377,14 @@ impl Sh {
 							drop(st);
 							ip::marker(format!("fail commit txn{} {}", act.txn_id, cls));
 							self.ev(format!("fail a{} txn{} {}", ai, act.txn_id, cls));
-							self.commit_failed(ai, act.txn_id, cls, &e);
+							let (start_seq, keys) = match &pend {
+								Some(p) => (p.start_seq, p.writes.iter().map(|w| w.key.clone()).collect()),
+								None => {
+									let m = self.model.borrow();
+									m.commits.iter().find(|c| c.txn == act.txn_id).map(|c| (c.start_seq, c.writes.iter().map(|w| w.key.clone()).collect())).unwrap_or((0, vec![]))
+								}
+							};
+							self.commit_failed(ai, act.txn_id, cls, &e, start_seq, keys);
 							// after a failed commit the actor abandons the transaction
 							drop(txn);
 							act.txn = None;
@@ -1334,8 +1398,8 @@ impl Sh {
 
 	/// Judgement of a failed commit (conflict soundness etc.) – filled in by history
 	/// checkers; here: on fault-free runs only conflict/retry are legitimate.
-	fn commit_failed(&self, ai: usize, txn: u64, cls: &str, e: &KvError) {
-		self.failed_commits.borrow_mut().push((ai, txn, cls.to_string()));
+	fn commit_failed(&self, ai: usize, txn: u64, cls: &str, e: &KvError, start_seq: u64, keys: Vec<Key>) {
+		self.failed_commits.borrow_mut().push(FailedCommit { actor: ai, txn, class: cls.to_string(), start_seq, keys });
 		if !self.faults_active.get() && cls != "Conflict" && cls != "Retry" {
 			self.fail("commit_error", format!("actor {} txn{} commit failed on a fault-free run: {}", ai, txn, e));
 		}
@@ -1369,6 +1433,8 @@ impl Sh {
 			}
 		};
 		let mut cm = CursorModel::new(items);
+		let ws_in_range = tm.writes.iter().any(|w| lo_b.as_ref().map(|l| &w.key >= l).unwrap_or(true) && hi_b.as_ref().map(|h| &w.key < h).unwrap_or(true));
+		let mut last_forward: Option<bool> = None;
 		for (i, op) in prog.iter().enumerate() {
 			self.stats.borrow_mut().cursor_ops += 1;
 			// seek targets must lie inside the bounds
@@ -1379,11 +1445,30 @@ impl Sh {
 					continue;
 				}
 			}
-			if let Err(d) = apply_cur_op(it.as_mut(), &mut cm, *op, &self.plan.keys) {
-				self.fail(
-					"cursor_mismatch",
-					format!(
-						"actor {} cursor [{:?},{:?}) op #{} {:?}: {} (live list {})",
+			let was_off_end = cm.off_end;
+			let was_positioned = cm.pos.is_some();
+			let op_forward = matches!(op, CurOp::Next | CurOp::SeekFirst | CurOp::Seek(_));
+			let res = apply_cur_op(it.as_mut(), &mut cm, *op, &self.plan.keys);
+			let direction_change = matches!(op, CurOp::Next | CurOp::Prev) && was_positioned && last_forward.map(|f| f != op_forward).unwrap_or(false);
+			if !(matches!(op, CurOp::Next | CurOp::Prev) && (was_off_end || !was_positioned)) {
+				last_forward = Some(op_forward);
+			}
+			if let Err(d) = res {
+				// explanation predicates of the two known cursor findings
+				let _ = was_off_end;
+				let explained = if direction_change && ws_in_range {
+					Some("cursor_direction_change_over_writeset".to_string())
+				} else {
+					None
+				};
+				let mut g = self.viol.borrow_mut();
+				if g.is_none() {
+					*g = Some(Violation {
+						class: "cursor_mismatch".into(),
+						explained,
+						detail: format!(
+						"step {}: actor {} cursor [{:?},{:?}) op #{} {:?}: {} (live list {})",
+						self.step_ix.get(),
 						ai,
 						lo_b.as_ref().map(|b| hex(b)),
 						hi_b.as_ref().map(|b| hex(b)),
@@ -1392,7 +1477,8 @@ impl Sh {
 						d,
 						fmt_kv(&cm.items)
 					),
-				);
+					});
+				}
 				return;
 			}
 		}
@@ -1526,6 +1612,7 @@ impl Sh {
 			None => (vec![], vec![]),
 		};
 		Outcome {
+			failed_commits: self.failed_commits.borrow().clone(),
 			violation: self.viol.borrow().clone(),
 			stats: self.stats.borrow().clone(),
 			ops,
@@ -1536,9 +1623,7 @@ impl Sh {
 		}
 	}
 
-	pub fn failed_commits(&self) -> Vec<(usize, u64, String)> {
-		self.failed_commits.borrow().clone()
-	}
+
 }
 
 fn hash_label(l: &str) -> u64 {
